@@ -3,7 +3,7 @@ ID = 'C16'
 LEVEL = 'exploration'
 LEVEL_TEXT = ('exploration: run-time contracts on the real Selector / SelectorList over selectors generated from an abstract CSS3 form (expected specificity and expected sequence of '
               'simple selectors and combinators known by construction; pseudo-classes not counted, as the statement says), in thirteen spellings (white space, comments, letter case, CSS escapes), through a serialisation round trip and attached to a sheet three ways; selector lists: order, '
-              'all-or-nothing rejection in raising and log mode and through the parser, and every append / replace history up to length 3 against a list model (appends as text, pair, new Selector object, '
+              'all-or-nothing rejection in raising and log mode and through the parser (hand-made invalid members, and every token kind that has no production in a selector at the start, between and at the end of compounds), and every append / replace history up to length 3 against a list model (appends as text, pair, new Selector object, '
               'member object of the same list, and through the alias append())')
 LEVEL_NOTE = ('bounded: compounds of <= 2 simple selectors (+ pseudo-element) from a pool of 55 and 10 pseudo-element endings incl. functional ::part()/::cue()/::slotted(), complex selectors of <= 3 compounds from a pool of 14 (thorough: 4 over 6), fixed spellings '
               'rather than all spellings (CSS escapes: one escaped letter per word - simple escape of the first / last non-hex letter, short hex escape of the first letter, six-digit hex escape of the last letter - in :not, '
@@ -20,6 +20,7 @@ def bounded(ctx):
     c16.complexes(ctx)
     c16.lists(ctx)
     c16.list_histories(ctx)
+    c16.stray_tokens(ctx)
 
 
 # T1 (PyVC): New.append - the single place where specificity is counted - adds exactly the statement's formula for every item type,
